@@ -1,5 +1,6 @@
 import RsModel.Model.Stream
 import RsModel.Lemmas.AttrSM
+import RsModel.Lemmas.ModeLeaves
 /-!
 # C08 — a SourceMapSource reproduces the attribution of the map it was given
 (declared tables and `sourceRoot` handling; the splitter attribution itself is tied by correspondence)
@@ -76,5 +77,24 @@ example : let t : Text := [97, 98, 59, 99, 100, 10, 101, 102]
   intro m hm
   simp only [List.mem_cons, List.not_mem_nil, or_false] at hm
   rcases hm with rfl | rfl | rfl <;> exact ⟨⟨by decide, fun _ => by decide⟩, fun _ => by decide, by decide⟩
+
+
+/-! ## the text-less (final_source) variant, columns = true -/
+
+/-- **C08, columns = true, final_source = true**: in the text-less stream (what `map()` of the source itself and of every
+enclosing source consumes) the chunk mappings, read as segments, resolve the position of *every character* of `T` to exactly what
+looking that position up in `M` gives.  Segments at or beyond the end of `T` are not delivered; an unmapped segment is delivered
+only after a mapped one on its line — neither changes any lookup.  Only sortedness of `M` is needed. -/
+theorem c08_final_attribution (t : Text) (sm : SMap) (hs : sortedFrom 1 0 (decode sm.mappings)) :
+    ∀ j, j < t.length →
+      lookupCols (chunkMs (streamSM t sm ⟨true, true⟩).evs) (adv startPos (t.take j)).line (adv startPos (t.take j)).col
+        = lookupCols (decode sm.mappings) (adv startPos (t.take j)).line (adv startPos (t.take j)).col :=
+  streamSMFinal_lookEq t sm hs
+
+/-- text-less and normal stream of a SourceMapSource attribute every character alike (columns = true) -/
+theorem c08_modes_agree (t : Text) (sm : SMap) (ha : IsAscii t) (hl : t.length ≤ USIZE_MAX) (hs : sortedFrom 1 0 (decode sm.mappings))
+    (hseg : ∀ m ∈ decode sm.mappings, SegOK (splitLines t) (adv startPos t).line (adv startPos t).col m) :
+    LookEq t (chunkMs (streamSM t sm ⟨true, true⟩).evs) (chunkMs (streamSM t sm ⟨true, false⟩).evs) :=
+  streamSM_lookEq t sm ha hl hs hseg
 
 end Rs
